@@ -1,0 +1,36 @@
+// Copyright (c) The Thanos Community Authors.
+// Licensed under the Apache License 2.0.
+
+//go:build verif
+
+package binary
+
+import (
+	"github.com/prometheus/prometheus/promql/parser"
+
+	"github.com/thanos-community/promql-engine/execution/model"
+)
+
+// VerifTable exposes the per-operator output table to the verification harness.
+type VerifTable struct {
+	t *table
+}
+
+// VerifNewTable builds a table over the given join indexes: high[i] is the output of the i-th
+// series of the high-cardinality side (nil: none), low[i] the outputs of the i-th series of the
+// low-cardinality side.
+func VerifNewTable(card parser.VectorMatchCardinality, op parser.ItemType, numOutputs int, high []*uint64, low [][]uint64) (*VerifTable, error) {
+	operation, err := newOperation(op, true)
+	if err != nil {
+		return nil, err
+	}
+	pool := model.NewVectorPool(1)
+	pool.SetStepSize(numOutputs)
+	return &VerifTable{t: newTable(pool, card, operation, make([]outputSample, numOutputs), newHighCardIndex(high), lowCardinalityIndex(low))}, nil
+}
+
+// Exec runs one step; the second result reports a many-to-many matching error.
+func (v *VerifTable) Exec(lhs, rhs model.StepVector, returnBool bool) (model.StepVector, bool) {
+	out, err := v.t.execBinaryOperation(lhs, rhs, returnBool)
+	return out, err != nil
+}
